@@ -744,4 +744,71 @@ theorem get_history_free_iff (h : Bool) :
     subst hh
     exact all_accessors_history_free it0 wf h0 cs
 
+/-! ### `data::Solution` -/
+
+theorem vec_roundtrip (s : SysDef Rat) (hs : s ∈ systems Rat) (m : Nat) (hm : m < nMeasure) (xs : List Rat) :
+    toSIVec s m (fromSIVec s m xs) = xs := by
+  have h := to_from_table s hs m hm
+  simp only [toSIVec, fromSIVec, List.map_map]
+  conv => rhs; rw [← List.map_id xs]
+  apply List.map_congr_left
+  intro x _
+  simp only [Function.comp, num_mul, num_add, num_sub, id]
+  linear_combination (x - s.toSIOffset.getD m zero) * h
+
+theorem vec_roundtrip' (s : SysDef Rat) (hs : s ∈ systems Rat) (m : Nat) (hm : m < nMeasure) (xs : List Rat) :
+    fromSIVec s m (toSIVec s m xs) = xs := by
+  have h := to_from_table s hs m hm
+  simp only [toSIVec, fromSIVec, List.map_map]
+  conv => rhs; rw [← List.map_id xs]
+  apply List.map_congr_left
+  intro x _
+  simp only [Function.comp, num_mul, num_add, num_sub, id]
+  linear_combination x * h
+
+/-- `convertToSI ∘ convertFromSI` gives back every vector of an SI-state solution -/
+theorem solution_roundtrip (s : SysDef Rat) (hs : s ∈ systems Rat) (sol : Sol Rat) (hsi : sol.si = true)
+    (hm : ∀ c ∈ sol.cells, c.1 < nMeasure) :
+    (sol.convertFromSI s).convertToSI s = sol := by
+  obtain ⟨si, cells⟩ := sol
+  simp only at hsi hm
+  subst hsi
+  simp only [Sol.convertFromSI, Sol.convertToSI, Bool.not_true, Bool.false_eq_true, if_false, List.map_map,
+    Sol.mk.injEq, true_and]
+  conv => rhs; rw [← List.map_id cells]
+  apply List.map_congr_left
+  intro c hc
+  obtain ⟨m, xs⟩ := c
+  simp only [Function.comp, id]
+  by_cases hid : m = identityIdx
+  · simp [hid]
+  · simp only [hid, if_false, Prod.mk.injEq, true_and]
+    exact vec_roundtrip s hs m (hm _ hc) xs
+
+/-- … and `convertFromSI ∘ convertToSI` on a solution in output units -/
+theorem solution_roundtrip' (s : SysDef Rat) (hs : s ∈ systems Rat) (sol : Sol Rat) (hsi : sol.si = false)
+    (hm : ∀ c ∈ sol.cells, c.1 < nMeasure) :
+    (sol.convertToSI s).convertFromSI s = sol := by
+  obtain ⟨si, cells⟩ := sol
+  simp only at hsi hm
+  subst hsi
+  simp only [Sol.convertFromSI, Sol.convertToSI, Bool.not_true, Bool.false_eq_true, if_false, List.map_map,
+    Sol.mk.injEq, true_and]
+  conv => rhs; rw [← List.map_id cells]
+  apply List.map_congr_left
+  intro c hc
+  obtain ⟨m, xs⟩ := c
+  simp only [Function.comp, id]
+  by_cases hid : m = identityIdx
+  · simp [hid]
+  · simp only [hid, if_false, Prod.mk.injEq, true_and]
+    exact vec_roundtrip' s hs m (hm _ hc) xs
+
+/-- converting twice in the same direction converts once (the `si` flag) -/
+theorem solution_idempotent (s : SysDef Rat) (sol : Sol Rat) :
+    (sol.convertFromSI s).convertFromSI s = sol.convertFromSI s ∧
+      (sol.convertToSI s).convertToSI s = sol.convertToSI s := by
+  obtain ⟨si, cells⟩ := sol
+  cases si <;> simp [Sol.convertFromSI, Sol.convertToSI]
+
 end OpmVerif.Units
